@@ -9,6 +9,7 @@
      C(x,y) A(x,y) *<g|l>(x) +<g|l>(x) R<g|l><lo>,<hi>(x) J<g|l><lo>,<hi>                                   -/
 import YaraModel.Spec.Re
 import YaraModel.Model.ReEval
+import YaraModel.Model.ReEmit
 import Driver.Util
 namespace Driver.Re
 open YaraModel.Re
@@ -157,7 +158,10 @@ def handle (line : String) : String :=
             let buf : Bytes := bs.toArray
             let fw := has 'f'
             let wideFl : Flags := { base with wide := true }
-            if (field ts "wfx").isSome then
+            if (field ts "wfx") == some "2" then
+              -- the Lean model of _yr_re_emit: forward and backward code of the whole AST
+              id ++ " E " ++ Driver.hex (YaraModel.ReEmit.emitCode false r) ++ ":" ++ Driver.hex (YaraModel.ReEmit.emitCode true r)
+            else if (field ts "wfx").isSome then
               let parts := (if has 'a' then ["a" ++ showWfx base buf r] else []) ++ (if has 'w' then ["w" ++ showWfx wideFl buf r] else [])
               id ++ " W " ++ (if parts.isEmpty then "-" else ";".intercalate parts)
             else
